@@ -23,18 +23,47 @@ func ruleV9(c *an.Ctx) {
 	if root == nil {
 		return
 	}
-	fam := map[*ssa.Function]bool{root: true}
-	order := []*ssa.Function{root}
-	for i := 0; i < len(order); i++ {
-		an.Instrs(order[i], func(in ssa.Instruction) {
+	// the family: functions of the package reachable from jsonPath (depth 3) that can call back into it
+	// (the method of the same name, and helpers a loop was extracted into)
+	reach := map[*ssa.Function]int{root: 0}
+	queue := []*ssa.Function{root}
+	for i := 0; i < len(queue); i++ {
+		f := queue[i]
+		if reach[f] >= 3 {
+			continue
+		}
+		an.Instrs(f, func(in ssa.Instruction) {
 			if cl := an.AsCallAny(in); cl != nil {
-				f := cl.Common().StaticCallee()
-				if f != nil && f.Blocks != nil && f.Pkg == root.Pkg && !fam[f] && f.Name() == "jsonPath" {
-					fam[f] = true
-					order = append(order, f)
+				g := cl.Common().StaticCallee()
+				if g != nil && g.Blocks != nil && g.Pkg == root.Pkg {
+					if _, seen := reach[g]; !seen {
+						reach[g] = reach[f] + 1
+						queue = append(queue, g)
+					}
 				}
 			}
 		})
+	}
+	fam := map[*ssa.Function]bool{root: true}
+	for changed := true; changed; {
+		changed = false
+		for f := range reach {
+			if fam[f] {
+				continue
+			}
+			an.Instrs(f, func(in ssa.Instruction) {
+				if cl := an.AsCallAny(in); cl != nil && fam[cl.Common().StaticCallee()] && !fam[f] {
+					fam[f] = true
+					changed = true
+				}
+			})
+		}
+	}
+	var order []*ssa.Function
+	for _, f := range queue {
+		if fam[f] {
+			order = append(order, f)
+		}
 	}
 	_ = p
 	inMapLoop, inOtherLoop := false, false
